@@ -30,6 +30,7 @@ func init() {
 			{"C19-R5", "stripping does not remove what re-insertion reads", c19r5},
 			{"C19-R6", "recorded user overrides are consulted for every template container", c19r6},
 			{"C19-R7", "container lists are never sorted unstably", c19r7},
+			{"C19-R8", "the decision is taken on the pod with its namespace defaulted from the request", c19r8},
 		},
 	})
 }
@@ -593,4 +594,52 @@ func c19r7(c *Ctx) {
 	c.Check("sorting calls in the injector are recognised (positive control)", token.NoPos, nSort >= 1, "no call of a sorting routine found in pkg/kube/inject; the matcher no longer recognises them")
 	c.Infof("sorting calls: %d, on container lists: %d", nSort, nCont)
 	c.Floor(1)
+}
+
+// C19-R8: the decision is taken on the normalised pod. Pods created by controllers arrive without metadata.namespace; the
+// webhook fills it in from the admission request, and injectRequired reads the namespace from the pod's own metadata
+// (ignored namespaces, namespace policy). In Webhook.inject every path to the injectRequired call passes the
+// "pod namespace is empty" test that guards the defaulting store (and the store takes the request's namespace).
+func c19r8(c *Ctx) {
+	p := c.P
+	fn := p.Func(pkgInject, "Webhook", "inject")
+	ir := p.FuncObj(pkgInject, "", "injectRequired")
+	isNsTest := func(ins ssa.Instruction) bool {
+		b, ok := ins.(*ssa.BinOp)
+		if !ok || (b.Op != token.EQL && b.Op != token.NEQ) {
+			return false
+		}
+		for _, pr := range [][2]ssa.Value{{b.X, b.Y}, {b.Y, b.X}} {
+			if f := fieldOfLoad(pr[0]); f != nil && f.Name() == "Namespace" {
+				if s, ok := constString(pr[1]); ok && s == "" {
+					return true
+				}
+			}
+		}
+		return false
+	}
+	calls := callsIn(fn, ir)
+	c.Check("Webhook.inject calls injectRequired", fn.Pos(), len(calls) >= 1, "no call of injectRequired in Webhook.inject")
+	for _, call := range calls {
+		hit := pathAvoiding(fn, nil, isNsTest, func(ins ssa.Instruction) bool { return ins == call.(ssa.Instruction) })
+		c.Check("the injection decision is taken after the pod's namespace was defaulted from the request", call.Pos(), hit == nil,
+			"injectRequired can be reached before the pod's empty metadata.namespace was filled in from the admission request: for controller-created pods the ignored-namespace and namespace-policy checks then compare against \"\", so a pod in kube-system is injected (and the same pod with its namespace spelled out is not - same inputs, different decision)")
+	}
+	// the defaulting store takes the request's namespace
+	n := 0
+	eachInstr(fn, func(ins ssa.Instruction) {
+		st, ok := ins.(*ssa.Store)
+		if !ok {
+			return
+		}
+		fa, ok := st.Addr.(*ssa.FieldAddr)
+		if !ok || fieldVar(fa.X.Type(), fa.Field).Name() != "Namespace" {
+			return
+		}
+		if f := fieldOfLoad(st.Val); f != nil && f.Name() == "Namespace" {
+			n++
+		}
+	})
+	c.Check("the pod's namespace is defaulted from the request", fn.Pos(), n >= 1, "no store pod.Namespace = req.Namespace in Webhook.inject")
+	c.Floor(3)
 }
